@@ -382,10 +382,11 @@ def is_float_t(t):
 class NanEval:
     """Kleene evaluation of guards with one parameter set to NaN."""
 
-    def __init__(self, f, pidx, prog=None, depth=0):
+    def __init__(self, f, pidx, prog=None, depth=0, outargs=False):
         self.f = f
         self.prog = prog
         self.depth = depth
+        self.outargs = outargs      # NAN2: taint also flows into locals passed by non-const reference
         # pidx: index of the NaN parameter, or a collection of indexes (inlined helper)
         self.pds = {f.params[i]['d'] for i in ([pidx] if isinstance(pidx, int) else pidx)}
         self.tainted = self._taint()
@@ -436,6 +437,18 @@ class NanEval:
                     if ln['k'] == 'DeclRefExpr' and ln.get('rk') == 'local' and is_float_t(ln.get('t', '')) \
                             and self._dep(n['ch'][1]):
                         tg.append(ln['d'])
+                if n['k'] in ('CallExpr', 'CXXMemberCallExpr') and self.outargs:
+                    # f(x, out1, out2) with x carrying the NaN: float locals passed by non-const reference receive it
+                    ce = n.get('callee') or {}
+                    pk = ce.get('pk') or []
+                    args = n.get('args', [])
+                    if 'r' in pk and ce.get('name') not in NAN_PROPAGATE_BLOCKERS and \
+                            any(self._dep(a) for a, k_ in zip(args, pk) if k_ != 'r'):
+                        for a, k_ in zip(args, pk):
+                            an = f.nodes[f.strip(a)]
+                            if k_ == 'r' and an['k'] == 'DeclRefExpr' and an.get('rk') == 'local' \
+                                    and is_float_t(an.get('t', '')):
+                                tg.append(an['d'])
                 for d in tg:
                     if d not in self.tainted:
                         self.tainted.add(d)
@@ -921,3 +934,106 @@ def rule_X5(ctx, classes=None):
     res.analysed['constructors_and_setters'] = nt
     res.analysed['targets'] = sorted({f.q for f, _ in targets})
     return res, nt
+
+
+# ------------------------------------------------------------------ NAN2 a NaN-decided arm keeps the NaN
+def _arm_assigns(f, root):
+    """float scalars assigned by plain `=` inside the statement root: decl id -> [(assignment node, rhs node)]."""
+    out = {}
+    if root is None or root < 0:
+        return out
+    for i in [root] + list(f.walk(root)):
+        n = f.nodes[i]
+        if n['k'] == 'BinaryOperator' and n.get('op') == '=' and len(n['ch']) == 2:
+            ln = f.nodes[f.strip(n['ch'][0])]
+            if ln['k'] == 'DeclRefExpr' and ln.get('rk') in ('local', 'param') and is_float_t(ln.get('t', '')):
+                out.setdefault(ln['d'], []).append((i, n['ch'][1]))
+    return out
+
+
+def _fields_written(f):
+    """fields of *this that the function stores into (they may carry what the function computed)."""
+    out = set()
+    for i, n in f.all_nodes():
+        if n['k'] in ('BinaryOperator', 'CompoundAssignOperator') and n.get('op') in ASSIGN_OPS and n['ch']:
+            ln = f.nodes[f.strip(n['ch'][0])]
+            if ln['k'] == 'MemberExpr' and ln.get('mk') == 'field':
+                out.add(ln.get('md'))
+    return out
+
+
+def _pure_const(f, nid, written=frozenset()):
+    """the expression reads no local variable, no parameter, no field this function writes and is not Math::NaN():
+    literals, untouched members and constant getters only, so its value cannot carry the NaN of an argument."""
+    for i in [nid] + list(f.walk(nid)):
+        n = f.nodes[i]
+        if n['k'] == 'MemberExpr' and n.get('mk') == 'field' and n.get('md') in written:
+            return False
+        if n['k'] == 'DeclRefExpr' and n.get('rk') in ('local', 'param'):
+            return False
+        if n['k'] == 'LambdaExpr':
+            return False
+        ce = n.get('callee') or {}
+        if ce.get('name') in ('NaN', 'quiet_NaN', 'signaling_NaN', 'nan'):
+            return False
+    return True
+
+
+def _mentions_nan_test(f, nid):
+    for i in [nid] + list(f.walk(nid)):
+        ce = f.nodes[i].get('callee') or {}
+        if ce.get('name') in ('isnan', 'isfinite', 'isinf', 'isnormal', 'signbit'):
+            return True
+    return False
+
+
+def rule_NAN2(ctx, files=None):
+    res = RuleResult('NAN2', 'a two-armed if whose condition is decided by a NaN argument (every ordered comparison '
+                             'with NaN is false) does not send the NaN into the arm that stores pure constants in the '
+                             'variables the other arm computes from that argument (the NaN would be replaced by a number)')
+    nifs = 0
+    for f in scoped_fns(ctx, files):
+        if f.is_ctor or f.is_dtor:
+            continue
+        fparams = [i for i, p in enumerate(f.params) if p.get('float') and p['pk'] in ('v', 'cr')]
+        if not fparams:
+            continue
+        ifs = [(i, n) for i, n in f.all_nodes()
+               if n['k'] == 'IfStmt' and n.get('then', -1) >= 0 and n.get('else', -1) >= 0]
+        if not ifs:
+            continue
+        written = _fields_written(f)
+        for pi in fparams:
+            ne = NanEval(f, pi, ctx.prog, outargs=True)
+            for i, n in ifs:
+                v = ne.ev(n['cond'])
+                if v == 'U' or _mentions_nan_test(f, n['cond']):
+                    continue
+                # an enclosing test that already excludes the NaN (isnan / a comparison the NaN fails) makes this unreachable
+                dead = False
+                for c, pol in guards_of(f, i):
+                    gv = ne.ev(c)
+                    if gv != 'U' and (gv == 'T') != pol:
+                        dead = True
+                if dead:
+                    continue
+                nifs += 1
+                taken, other = (n['then'], n['else']) if v == 'T' else (n['else'], n['then'])
+                ta, oa = _arm_assigns(f, taken), _arm_assigns(f, other)
+                bad = None
+                for d, lst in ta.items():
+                    if d not in oa:
+                        continue
+                    if all(_pure_const(f, r, written) for _, r in lst) and any(ne._dep(r) for _, r in oa[d]):
+                        bad = (d, lst[0][0])
+                        break
+                res.ob(bad is None, {'fn': f.q, 'param': f.params[pi]['name'], 'if': f.loc(i), 'value': v}
+                       if (bad or res.obligations % 40 == 0) else None)
+                if bad:
+                    res.fail(f.q, '%s@%s' % (f.params[pi]['name'], f.src_text(n['cond'])[:60].strip()), f.loc(i),
+                             'a NaN in argument %s makes the condition %s and selects the arm that stores a constant '
+                             '(no local, no argument: independent of %s) at %s, where the other arm computes it from %s: the NaN is replaced '
+                             'by a number' % (f.params[pi]['name'], 'true' if v == 'T' else 'false',
+                                              f.params[pi]['name'], f.loc(bad[1]), f.params[pi]['name']))
+    res.analysed['nan_decided_two_armed_ifs'] = nifs
+    return res, nifs
